@@ -108,3 +108,18 @@ Proof.
   - apply trimmed_zero_column. exact H.
 Qed.
 Print Assumptions C08_trimmed_mean_columns.
+
+(* ---- ConFIG (added): A(J Q) = A(J) Q for every Q with orthonormal rows, with the pseudo-inverse
+   oracle of the rotated unit rows Q^T B; the unit rows commute with Q and the contract U B = I
+   transfers ---- *)
+From TJ.proofs Require Import QPProofs C03Proofs C18Proofs C16Proofs C11Proofs C10Proofs EquivarianceProofs ConfigProofs.
+Theorem C08_config : forall n p m J Q B pref,
+  orth n p Q -> wfmat n J -> wfmat m B -> length B = n ->
+  let B' := config_pinv_Q p m Q B in
+  length B' = p /\ wfmat m B' /\
+  config_units RN (mmul RN p J Q) = mmul RN p (config_units RN J) Q /\
+  ((forall x, length x = m -> mvR (config_units RN J) (mvR B x) = x) ->
+   (forall x, length x = m -> mvR (config_units RN (mmul RN p J Q)) (mvR B' x) = x)) /\
+  agg_config RN B' pref (mmul RN p J Q) = res_map (fun v => vmR p v Q) (agg_config RN B pref J).
+Proof. exact config_orthogonal. Qed.
+Print Assumptions C08_config.
